@@ -64,8 +64,8 @@ CHECKS = {
         ref="DESIGN.md section 5, C08"),
     "C02": dict(
         text="C02_decodes_iff: for every reachable decoder state with at least K ESIs and not all source symbols, the model returns Some exactly when the constraint matrix of the received set is injective over GF(256) (3b is the reference elimination, proved Some iff injective; 3a's rows are a sub-list of the full matrix's rows so its success implies the full system's, and its failure falls through: C02_fast_path_never_loses); C02_case1_not_injective (fewer than K symbols can never determine the block), C02_all_source_decodes, C02_monotone; panic-freedom of the rebuild for all K <= 56403. With C04_matrix_is_rfc the matrix is the RFC's. Tie: real SourceBlockDecoder fed one symbol at a time, Some/None at EVERY prefix vs the model (= rank oracle), oracle-guided generation of rank-deficient sets, overhead stream exercising the binary-only path at its own rank boundary, both profiles and back-ends.",
-        note="Trusted: Coq kernel; that the REAL five-phase solver answers like the reference elimination is tied by correspondence (every prefix compared) and by the certificates of C06, not by a proof of pi_solver.rs; sampled K <= 40 quick / 120 thorough. No axioms.",
-        technique="Rocq proof (decode <-> injective, via Gaussian elimination correctness) + prefix-wise rank-oracle correspondence",
+        note="Trusted: Coq kernel; the five-phase solver of pi_solver.rs is itself modelled (Model/PiSolver.v: selection statistics, component graph, the five phases, both build variants incl. the errata-11 release shortcuts) and proved sound and complete (C02s_PS_sound: a returned operation list is a certificate; C02s_PS_complete: None iff the matrix is not injective; C02s_PS_first_phase_total: errata 2 as a theorem); its operation lists are compared TOKEN BY TOKEN with the real solver's on the dense back-end on every run (encoding systems and decoder systems incl. singular ones, both profiles). Left unproved: absence of panics in the component-graph bookkeeping of the model (PS_no_panic_partial; a panic yields no answer, so soundness is unaffected); the sparse back-end iterates in physical order and is tied through C16 + C07 + prefix-wise Some/None. Sampled K <= 40 quick / 120 thorough. No axioms.",
+        technique="Rocq proof (decode <-> injective; five-phase solver model proved sound and complete) + prefix-wise rank-oracle and exact op-list correspondence",
         ref="DESIGN.md section 5, C02"),
     "C01": dict(
         text="C01u_object_sound / C01u_block_sound (unconditional, both modes, every K <= 56403): for every valid configuration, all data and EVERY history of packets the model encoder produces (any order, multiplicity, subset, repair ESIs < 2^24) the model decoder never panics and answers None or exactly the object with length F; C01u_object_complete / C01u_all_source_complete: all source packets delivered => the object. Chain: the encoder's intermediate symbols solve the encoding system (reference elimination, proved correct), G_ENC rows are indicator rows of duplicate-free index lists so every received row is satisfied by the true C, uniqueness of the solution of an injective system forces the decoder's C, rebuilt symbols are Enc(C) = source symbols, un-interleaving by C05. Matrix facts discharged from the C04 development. Tie: whole encode -> erase/reorder/duplicate -> decode histories on the real code vs the model step by step (Z>1, N>1, padding, both profiles, dense/sparse thresholds) with the oracle 'None or exactly the object'.",
@@ -78,14 +78,14 @@ CHECKS = {
         technique="Rocq proof (model matrix = RFC matrix for all K') + Spec-oracle correspondence of packets",
         ref="DESIGN.md section 5, C04"),
     "C06": dict(
-        text="PARTIAL beyond the in-kernel bound. For every K' up to the bound (quick: 74 rows K' <= 500; thorough: 201 rows K' <= 3000) the operation list of SourceBlockEncodingPlan::generate(K') is dumped from the CURRENT tree on every run and `cert_ok K' plan = true` is checked by the kernel's VM in a generated file; C06_for_block_size turns it into: for every K mapping to K', all data, all T, both modes the replayed symbols satisfy every LDPC/HDPC relation and reproduce every source and padding symbol, are the unique solution, equal the direct solve, the encoder builds, A(K') is invertible. Direct solves on the sparse and dense back-ends are certified for a subset. Beyond the bound: the extracted checker (validation) and the hook-based constraint check of the real intermediate symbols.",
+        text="PARTIAL beyond the in-kernel bound. For every K' up to the bound (quick: 74 rows K' <= 500; thorough: 201 rows K' <= 3000) the operation list of SourceBlockEncodingPlan::generate(K') is dumped from the CURRENT tree on every run and `cert_ok K' plan = true` is checked by the kernel's VM in a generated file; C06_for_block_size turns it into: for every K mapping to K', all data, all T, both modes the replayed symbols satisfy every LDPC/HDPC relation and reproduce every source and padding symbol, are the unique solution, equal the direct solve, the encoder builds, A(K') is invertible. Direct solves on the sparse and dense back-ends are certified for a subset. Beyond the bound: the extracted checker (validation, K' = 5008 and 10002 in the thorough tier), the hook-based constraint check of the real intermediate symbols, and a row-by-row comparison of the real constraint matrix (all LDPC rows, sampled G_ENC rows, sparse back-end) with the model for the largest block sizes incl. K' = 56403.",
         note="Trusted: Coq kernel (vm_cast_no_check: evaluated by the kernel VM at Qed); the generated files contain only the dumped literal; K' above the bound (276 rows in thorough) are NOT proved, only validated; the sparse/dense row representations are abstracted (C16). No axioms.",
         technique="Rocq proof by per-K' certificate checking in the kernel (plans regenerated from source every run) + hook-based constraint check",
         ref="DESIGN.md section 5, C06"),
     "C16": dict(
-        text="DENSE half proved, SPARSE half by correspondence only (partial). Dense: Model/DenseMatrix.v mirrors matrix.rs word for word (bit positions, masks, popcount, iterator stepping, right-aligned packing, resize compaction); refinement to the abstract bit array of Spec/BitMatrix.v for every operation and query (C16_dense_*_refines, equality of ALL cells), lifted to every admissible operation sequence (C16_dense_sequence, C16_dense_run); the pre-fix defects are refuted by witnesses and repaired (570911f, bcbc9b5). Sparse: the real SparseBinaryMatrix is run on phase-structured admissible sequences (construction / indexed incl. freezes across word boundaries and single-entry eliminations / un-indexed incl. partial row additions and resizes) and compared with the Spec; two sparse defects found this way are repaired (b932d23 and the empty-index build).",
-        note="Trusted: Coq kernel; Spec/BitMatrix.v as the interface meaning. The sparse matrix has no proved model yet (in progress): its half of the property is decided by sampled correspondence only. Width-0 resize is outside the domain. No axioms.",
-        technique="Rocq refinement proof (dense) + op-sequence correspondence against the abstract matrix (dense and sparse)",
+        text="Both implementations are modelled statement by statement (dense: bit positions, masks, popcount, iterator stepping, right-aligned packing, resize compaction; sparse: sorted u16 rows with the single-entry fast path, right-aligned dense tail with the re-spacing loop of the freeze, logical/physical row and column maps, the immutable column index and its staleness, every assert / unimplemented! as a panic) and proved to refine the abstract bit array of Spec/BitMatrix.v for every operation and query (C16_dense_*_refines, C16_sparse_*_refines; row and column queries as sets), lifted to every admissible operation sequence (C16_dense_sequence, C16_sparse_sequence, C16_*_run: model run = abstract run; no panic, all answers equal, undefined cells excluded as the interface says). Admissibility for the sparse matrix is an explicit phase-aware predicate (Spec/SparseAdm.v). Eight defects found on the way are repaired in /repo and kept as `_pinned_refuted` witnesses. Tie: real DenseBinaryMatrix and SparseBinaryMatrix run on random / phase-structured operation sequences (widths across word boundaries, tails growing to a third word, inadmissible ops as a separate stream) vs both models and vs the Spec, both profiles.",
+        note="Trusted: Coq kernel; Spec/BitMatrix.v + Spec/SparseAdm.v as the interface meaning (the sparse restrictions are the implementation's own documented refusals; height >= width and non-zero width are part of the domain). HashMap/Vec behaviour is modelled by lists. No axioms.",
+        technique="Rocq refinement proofs (dense and sparse -> abstract bit matrix, all admissible sequences) + op-sequence correspondence",
         ref="DESIGN.md section 5, C16"),
     "C18": dict(
         text="C18_window_is_singles (both modes, unconditional), C18_singles_make_window, C18_overlap_agree, C18_ids / C18_ids_mod (ESI = K+s+i, distinct, disjoint from source ids), C18_object_order (block by block: source 0..K-1 then repair K..), C18_all_ids_producible (every id below 2^24 is produced without panic, via the C15 tuple facts), C18_symbol_depends_only_on (payload is a function of K, the intermediate symbols and the ESI), C18_enc_into_is_enc_indices. Tie: on the real encoder windows vs singles vs overlapping windows, ids, object order, the three constructors (cache / explicit plan / regenerated plan) produce equal encoders, top-of-range windows and the 2^24 limit, all also vs the model in both profiles.",
